@@ -1168,7 +1168,12 @@ def oracle(ctx, h, impl):
                     t2 = [l for l in f2.split(b"\n") if not l.startswith(b"[")]
                     if not any(it.ty == "dbl" for it in items) and f1 != f2:
                         fails.append("second save differs from the first")
-            if fails:
+            guard = getattr(h, "guards", {}).get(i_save)
+            if fails and guard:
+                # the guard of C17_save_load_roundtrip holds for this state, so the theorem promises the round trip
+                viol("roundtrip-under-guard:" + fails[0].split(":")[0].replace(" ", "-")[:40],
+                     "roundtrip_ok_b holds for the saved state but the library does not reproduce it: " + "; ".join(fails[:3]), dict(saved=hx(f1)))
+            elif fails:
                 # a key-value item whose SAVED text does not denote the value its (shared) variable holds:
                 # the text copy of a sub-options item went stale because the variable was set through another object
                 stale = False
@@ -1282,15 +1287,27 @@ def run(ctx):
     ndis = 0
     judged = 0
     crashed = set(c[0] for c in crashes)
+    nguard = [0, 0]
     for h in hs:
         il = [l for l in impl.get(h.hid, []) if not l.startswith("EV")]
-        ml = model.get(h.hid, [])
+        ml_all = model.get(h.hid, [])
+        # "G b" lines: the Coq guard roundtrip_ok_b on the state of the save that follows
+        guards = {}
+        ml = []
+        for l in ml_all:
+            if l.startswith("G "):
+                guards[len(ml)] = l == "G 1"
+            else:
+                ml.append(l)
+        h.guards = guards
         for t in h.tags:
             dist[t] = dist.get(t, 0) + 1
         dist["shape-" + h.decl.shape] = dist.get("shape-" + h.decl.shape, 0) + 1
         nops = len(h.lines) - 2 - len(h.decl.lines(False)) - len(h.decl.lines(True))
         ctx.count_case(tuple(h.lines[1:]), nontrivial=nops >= 1)
         judged += oracle(ctx, h, impl.get(h.hid, []))
+        nguard[0] += sum(1 for g in guards.values() if g)
+        nguard[1] += sum(1 for g in guards.values() if not g)
         if h.hid in crashed:
             continue
         if len(il) != len(ml) or any(a != b for a, b in zip(il, ml)):
@@ -1314,6 +1331,7 @@ def run(ctx):
     ctx.notes["model_disagreements"] = ndis
     ctx.notes["crashes"] = len(crashes)
     ctx.notes["libc_oracle_entries"] = len(tabs)
+    ctx.notes["roundtrip_guard_true_false"] = nguard
     for h in hs[:: max(1, len(hs) // 5)][:5]:
         ctx.sample({"history": h.hid, "tags": sorted(h.tags), "ops": [l[:80] for l in h.lines[-6:-1]]})
     ctx.cov["trusted_base"] = ["getopt_long of libc is an oracle: model and library consume the recorded event stream; GetoptModel.v is validated against it",
